@@ -12,7 +12,8 @@ Definition mix64 (z : Z) : Z :=
   Z.lxor z (Z.shiftr z 31).
 (* what "memory pre-filled with arbitrary non-zero words" holds at address a (cheap on purpose:
    it is evaluated for every untouched word) *)
-Definition background (a : Z) : Z := Z.lor (Z.lxor a 6148914691236517205) 1.   (* a ^ 0x5555..55 | 1 *)
+Definition background (a : Z) : Z :=
+  Z.lor (Z.lxor a 6148914691236517204) (Z.land (Z.shiftr a 3) 1).   (* (a ^ 0x5555..54) | ((a >> 3) & 1): never zero, PRESENT in every second word *)
 
 Definition key (a : Z) : positive := Z.to_pos (a / 8 + 1).
 Record pstate := {
